@@ -3,6 +3,7 @@ import Vorbis.Driver.C17
 import Vorbis.Driver.C14
 import Vorbis.Driver.C04
 import Vorbis.Driver.C02
+import Vorbis.Driver.C15
 /-- `vdriver <stream>`: the executable model, one line in / canonical lines out (DESIGN §3.2). -/
 def main (args : List String) : IO UInt32 := do
   match args with
@@ -11,4 +12,5 @@ def main (args : List String) : IO UInt32 := do
   | ["c14"] => Vorbis.Driver.C14.main; return 0
   | ["c04"] => Vorbis.Driver.C04.main; return 0
   | ["c02"] => Vorbis.Driver.C02.main; return 0
+  | ["c15"] => Vorbis.Driver.C15.main; return 0
   | _ => IO.eprintln "usage: vdriver <stream>"; return 2
